@@ -40,6 +40,11 @@ pub struct Env {
     pub dir: String,
     /// descriptors whose ownership the operation is handed (Stdio::RawFd, from_raw)
     pub given: Vec<i32>,
+    /// descriptors only LENT to the operation (`Stdio::RawFd`): they stay the caller's and must be open,
+    /// the same file and with the same flags afterwards, whatever the operation returns
+    pub lent: Vec<i32>,
+    /// trouble the scenario closure itself noticed with descriptors of its own (e.g. its close() answered EBADF)
+    pub complaints: Vec<String>,
     pub ustd: Option<std::os::unix::net::UnixListener>,
     pub tstd: Option<std::net::TcpListener>,
     pub port: u16,
@@ -55,7 +60,7 @@ impl Env {
         let dir = format!("/tmp/hfd-{}", unsafe { libc::getpid() });
         let _ = std::fs::remove_dir_all(&dir);
         std::fs::create_dir_all(&dir).expect("scratch dir");
-        Env { dir, given: vec![], ustd: None, tstd: None, port: 0, clients: vec![], ul: None, tl: None, aux: vec![], termios: None }
+        Env { dir, given: vec![], lent: vec![], complaints: vec![], ustd: None, tstd: None, port: 0, clients: vec![], ul: None, tl: None, aux: vec![], termios: None }
     }
     pub fn remove(&mut self) {
         self.clients.clear();
@@ -95,13 +100,11 @@ pub struct Scn {
     /// 0: full enumeration; 1: quick tier stops at single deviations (pairs in the thorough tier);
     /// 2: argument-domain variant — quick tier runs the fault-free case and the drop only (single deviations in the thorough tier)
     pub light: u8,
-    /// descriptors handed over as `Stdio::RawFd` must have been consumed (closed in the parent) when the operation returns Ok
-    pub given_consumed_on_ok: bool,
     pub label: Option<Box<dyn Fn(&str, usize, usize) -> Option<String>>>,
 }
 
 pub(crate) fn scn(name: &str, op: impl FnMut(&mut Env) -> Ret + 'static) -> Scn {
-    Scn { name: name.to_string(), init: None, prepare: None, op: Box::new(op), cleanup: None, fini: None, drop_releases: true, fixed_stdio: false, light: 0, given_consumed_on_ok: false, label: None }
+    Scn { name: name.to_string(), init: None, prepare: None, op: Box::new(op), cleanup: None, fini: None, drop_releases: true, fixed_stdio: false, light: 0, label: None }
 }
 impl Scn {
     pub(crate) fn init(mut self, f: impl FnMut(&mut Env) + 'static) -> Self {
@@ -122,10 +125,6 @@ impl Scn {
     }
     pub(crate) fn light(mut self, l: u8) -> Self {
         self.light = l;
-        self
-    }
-    pub(crate) fn consumes_given(mut self) -> Self {
-        self.given_consumed_on_ok = true;
         self
     }
     pub(crate) fn plain_handle(mut self) -> Self {
@@ -318,7 +317,7 @@ pub(crate) fn spawn_call(bin: &'static UnixStr, st: [Option<Stdio>; 3], extra: b
 pub(crate) const MODE_NAMES: [&str; 4] = ["Inherit", "Null", "MakePipe", "RawFd"];
 
 pub(crate) fn spawn_with(suffix: &str, modes: [Option<u8>; 3], bin: &'static UnixStr, then: u8) -> Scn {
-    // mode: 0 Inherit, 1 Null, 2 MakePipe, 3 RawFd(a fresh descriptor made for this call and handed over)
+    // mode: 0 Inherit, 1 Null, 2 MakePipe, 3 RawFd(a fresh descriptor made for this call and LENT: it stays the caller's)
     let n_pipes = modes.iter().filter(|m| **m == Some(2)).count();
     let n_null = modes.iter().filter(|m| **m == Some(1)).count();
     let n_raw = modes.iter().filter(|m| **m == Some(3)).count();
@@ -332,7 +331,7 @@ pub(crate) fn spawn_with(suffix: &str, modes: [Option<u8>; 3], bin: &'static Uni
                 2 => Stdio::MakePipe,
                 _ => {
                     next_raw += 1;
-                    Stdio::RawFd(fdv(e.given[next_raw - 1]))
+                    Stdio::RawFd(fdv(e.lent[next_raw - 1]))
                 }
             });
         }
@@ -353,17 +352,12 @@ pub(crate) fn spawn_with(suffix: &str, modes: [Option<u8>; 3], bin: &'static Uni
         child_guard();
         mk(r, child_fds)
     })
-    .label(spawn_label(n_pipes, n_null))
-    .consumes_given();
+    .label(spawn_label(n_pipes, n_null));
     if n_raw > 0 {
         s.prep(move |e| {
-            e.given = (0..n_raw).map(|_| devnull()).collect();
+            e.lent = (0..n_raw).map(|_| devnull()).collect();
         })
-        .clean(|e| {
-            for fd in e.given.drain(..) {
-                close_if_open(fd);
-            }
-        })
+        .clean(close_lent)
     } else {
         s
     }
@@ -380,6 +374,151 @@ pub(crate) fn spawn_grid() -> Vec<Scn> {
             }
         }
     }
+    v
+}
+
+/// The harness closes the descriptors it lent, after the case was judged.
+pub(crate) fn close_lent(e: &mut Env) {
+    for fd in e.lent.drain(..) {
+        if fd > 2 {
+            close_if_open(fd);
+        }
+    }
+}
+
+fn repeat_label(sc: &str, ordinal: usize, sub: usize) -> Option<String> {
+    (sc == "pipe2").then(|| format!("sync-pipe#{ordinal}-{}", if sub == 0 { "read-end" } else { "write-end" }))
+}
+
+/// `n` spawns that all name the same lent descriptor as stdout — through ONE `Command` in the alloc build —
+/// with an unrelated open() of the caller between two spawns (it would receive the number if a spawn closed it).
+fn spawn_repeat(name: &str, n: usize) -> Scn {
+    scn(name, move |e| {
+        let raw = Stdio::RawFd(fdv(e.lent[0]));
+        #[cfg(not(feature = "noalloc"))]
+        let mut c = {
+            let mut c = Command::new(TRUE).unwrap();
+            c.stdout(raw);
+            c
+        };
+        let mut unrelated: Vec<i32> = Vec::new();
+        let mut children = Vec::new();
+        let mut res: tiny_std::Result<()> = Ok(());
+        for i in 0..n {
+            if i > 0 {
+                unrelated.push(devnull());
+            }
+            #[cfg(not(feature = "noalloc"))]
+            let r = c.spawn();
+            #[cfg(feature = "noalloc")]
+            let r = spawn_call(TRUE, [None, Some(raw), None], false);
+            child_guard();
+            match r {
+                Ok(ch) => children.push(ch),
+                Err(x) => {
+                    res = Err(x);
+                    break;
+                }
+            }
+        }
+        for fd in unrelated {
+            if unsafe { libc::close(fd) } != 0 {
+                e.complaints.push(format!("the caller's own unrelated descriptor {fd}, opened between two spawns, was closed by somebody else (its close() answered EBADF)"));
+            }
+        }
+        mk(res.map(|()| children), |cs| cs.iter().flat_map(child_fds).collect())
+    })
+    .prep(|e| e.lent = vec![devnull()])
+    .clean(close_lent)
+    .label(repeat_label)
+}
+
+/// Aliasing cases of `Stdio::RawFd`: the descriptor stays the caller's, so all of these must be clean.
+pub(crate) fn spawn_alias() -> Vec<Scn> {
+    let mut v = Vec::new();
+    v.push(
+        scn(&format!("{SPAWN}[stdout=stderr=one-RawFd]"), |e| {
+            let raw = Stdio::RawFd(fdv(e.lent[0]));
+            let r = spawn_call(TRUE, [None, Some(raw), Some(raw)], false);
+            child_guard();
+            mk(r, child_fds)
+        })
+        .prep(|e| e.lent = vec![devnull()])
+        .clean(close_lent)
+        .label(spawn_label(0, 0)),
+    );
+    v.push(
+        scn(&format!("{SPAWN}[stdin=stdout=stderr=one-RawFd]"), |e| {
+            let raw = Stdio::RawFd(fdv(e.lent[0]));
+            let r = spawn_call(TRUE, [Some(raw), Some(raw), Some(raw)], false);
+            child_guard();
+            mk(r, child_fds)
+        })
+        .prep(|e| e.lent = vec![devnull()])
+        .clean(close_lent)
+        .label(spawn_label(0, 0)),
+    );
+    // the process's own standard streams named explicitly (default start state only: they must exist)
+    let std_cases: [(&str, [Option<i32>; 3]); 4] = [
+        ("[stderr=RawFd(1)]", [None, None, Some(1)]),
+        ("[RawFd(0),RawFd(1),RawFd(2)]", [Some(0), Some(1), Some(2)]),
+        ("[stdout=RawFd(2),stderr=RawFd(1)]", [None, Some(2), Some(1)]),
+        ("[stdin=RawFd(2),stdout=RawFd(0),stderr=RawFd(0)]", [Some(2), Some(0), Some(0)]),
+    ];
+    for (suffix, fds) in std_cases {
+        v.push(
+            scn(&format!("{SPAWN}{suffix}"), move |_| {
+                let st = [fds[0].map(|f| Stdio::RawFd(fdv(f))), fds[1].map(|f| Stdio::RawFd(fdv(f))), fds[2].map(|f| Stdio::RawFd(fdv(f)))];
+                let r = spawn_call(TRUE, st, false);
+                child_guard();
+                mk(r, child_fds)
+            })
+            .prep(move |e| {
+                let mut l: Vec<i32> = fds.iter().flatten().copied().collect();
+                l.sort();
+                l.dedup();
+                e.lent = l;
+            })
+            .clean(close_lent)
+            .fixed_stdio()
+            .label(spawn_label(0, 0)),
+        );
+    }
+    #[cfg(not(feature = "noalloc"))]
+    {
+        v.push(spawn_repeat("Command::spawn(RawFd)-twice-on-one-Command", 2));
+        v.push(spawn_repeat("Command::spawn(RawFd)-three-times-on-one-Command", 3));
+    }
+    #[cfg(feature = "noalloc")]
+    {
+        v.push(spawn_repeat("process::spawn(RawFd)-twice-with-one-descriptor", 2));
+        v.push(spawn_repeat("process::spawn(RawFd)-three-times-with-one-descriptor", 3));
+    }
+    // a File lends its descriptor, is used afterwards and dropped: exactly one close of that number in the whole run
+    v.push(
+        scn(&format!("{SPAWN}[stdout=File::as_raw_fd]+File-used-and-dropped"), |e| {
+            let p = e.u("child-out.txt");
+            let r = (|| -> tiny_std::Result<(Child, File)> {
+                let f = OpenOptions::new().write(true).create(true).open(&p)?;
+                let ch = spawn_call(TRUE, [None, Some(Stdio::RawFd(f.as_raw_fd())), None], false)?;
+                child_guard();
+                f.metadata()?;
+                Ok((ch, f))
+            })();
+            child_guard();
+            mk(r, |(c, f)| {
+                let mut o = child_fds(c);
+                o.push(f.as_raw_fd().value());
+                o
+            })
+        })
+        .prep(|e| e.rm("child-out.txt"))
+        .label(|sc, ordinal, sub| match sc {
+            "pipe2" => Some(format!("sync-pipe-{}", if sub == 0 { "read-end" } else { "write-end" })),
+            "open" | "openat" if ordinal == 0 => Some("lent-file".to_string()),
+            _ => None,
+        }),
+    );
     v
 }
 
@@ -771,33 +910,7 @@ pub fn all() -> Vec<Scn> {
         .label(spawn_label(0, 0)),
     );
     v.extend(spawn_grid());
-    #[cfg(not(feature = "noalloc"))]
-    v.push(
-        scn("Command::spawn(RawFd)-twice-on-one-Command", |e| {
-            let mut c = Command::new(TRUE).unwrap();
-            c.stdout(Stdio::RawFd(fdv(e.given[0])));
-            let r = (|| -> tiny_std::Result<(Child, Child)> {
-                let a = c.spawn()?;
-                child_guard();
-                let b = c.spawn()?;
-                child_guard();
-                Ok((a, b))
-            })();
-            child_guard();
-            mk(r, |(a, b)| {
-                let mut o = child_fds(a);
-                o.extend(child_fds(b));
-                o
-            })
-        })
-        .prep(|e| e.given = vec![devnull()])
-        .clean(|e| {
-            for fd in e.given.drain(..) {
-                close_if_open(fd);
-            }
-        })
-        .label(|sc, ordinal, sub| (sc == "pipe2").then(|| format!("sync-pipe#{ordinal}-{}", if sub == 0 { "read-end" } else { "write-end" }))),
-    );
+    v.extend(spawn_alias());
 
     // ------------------------------------------------------------------ epoll
     v.push(scn("EpollDriver::create", |_| mk(EpollDriver::create(true), peek)));
